@@ -96,3 +96,57 @@ func Harness_C11_crl() {
 		vReach("refused")
 	}
 }
+
+// c11StdCert is the fixed-content variant of the skeleton above (toy RSA key, CA basic
+// constraints, key usage) with one more extension.
+func c11StdCert(extra []byte) []byte {
+	ku := c03Ext(c03OIDKU, true, []byte{0x03, 0x02, 0x01, 0x06})
+	bc := c03Ext(c03OIDBC, true, []byte{0x30, 0x03, 0x01, 0x01, 0xff})
+	issuer := derTLV(0x30, derTLV(0x31, derTLV(0x30, []byte{0x06, 0x03, 0x55, 0x04, 0x03}, derTLV(0x0c, []byte("ca")))))
+	spkiAlg := derTLV(0x30, []byte{0x06, 0x09, 0x2a, 0x86, 0x48, 0x86, 0xf7, 0x0d, 0x01, 0x01, 0x01}, []byte{0x05, 0x00})
+	sigAlg := derTLV(0x30, []byte{0x06, 0x09, 0x2a, 0x86, 0x48, 0x86, 0xf7, 0x0d, 0x01, 0x01, 0x0b}, []byte{0x05, 0x00})
+	rsaKey := derTLV(0x30, []byte{0x02, 0x03, 0x01, 0x00, 0x01}, []byte{0x02, 0x03, 0x01, 0x00, 0x01})
+	spki := derTLV(0x30, spkiAlg, derTLV(0x03, append([]byte{0x00}, rsaKey...)))
+	validity := derTLV(0x30, derTLV(0x17, []byte("250101000000Z")), derTLV(0x17, []byte("260101000000Z")))
+	tbs := derTLV(0x30, []byte{0xa0, 0x03, 0x02, 0x01, 0x02}, []byte{0x02, 0x01, 0x05}, sigAlg, issuer, validity, issuer, spki,
+		derTLV(0xa3, derTLV(0x30, ku, bc, extra)))
+	return derTLV(0x30, tbs, sigAlg, derTLV(0x03, []byte{0x00, 0x30, 0x06, 0x02, 0x01, 0x01, 0x02, 0x01, 0x01}))
+}
+
+// c11Policies is a certificatePolicies extension with one policy 1.3.6.1.4.1.<arc>.1, the arc in
+// base 128 as given.
+func c11Policies(arc []byte) []byte {
+	oid := append(append([]byte{0x2b, 0x06, 0x01, 0x04, 0x01}, arc...), 0x01)
+	return c03Ext([]byte{0x06, 0x03, 0x55, 0x1d, 0x20}, false, derTLV(0x30, derTLV(0x30, derTLV(0x06, oid))))
+}
+
+// Harness_C11_policies: a certificate policies extension whose policy identifier has an arc that
+// fits 31 bits parses with no error, as in the standard library, and the policy is reported.
+//
+//verif:opt maxpaths=400 reach=both-accept
+func Harness_C11_policies() {
+	lo := []byte{0x00, 0x01, 0x7f}[vChoice("arc-low-7-bits", 3)]
+	der := c11StdCert(c11Policies([]byte{0x87, 0xff, 0xff, 0xff, lo})) // 2^31-128, 2^31-127, 2^31-1
+	s, serr := stdx509.ParseCertificate(der)
+	f, ferr := ParseCertificate(der)
+	vAssert(serr == nil && s != nil, "the standard library accepts the certificate")
+	vAssert(f != nil && ferr == nil, "a certificate the standard library accepts parses with no error at all")
+	if f != nil {
+		vAssert(len(f.PolicyIdentifiers) == 1 && len(s.PolicyIdentifiers) == 1 && f.PolicyIdentifiers[0].String() == s.PolicyIdentifiers[0].String(), "the policy identifier as the standard library reports it")
+	}
+	vReach("both-accept")
+}
+
+// Harness_C11_largeOIDArc: the same with an arc of 2^31 and above (legal: OID arcs are unbounded;
+// the standard library keeps such policies in Certificate.Policies). Known finding C11-oidarc.
+//
+//verif:opt maxpaths=400 reach=std-accepts
+func Harness_C11_largeOIDArc() {
+	lo := []byte{0x00, 0x01, 0x7f}[vChoice("arc-low-7-bits", 3)]
+	der := c11StdCert(c11Policies([]byte{0x88, 0x80, 0x80, 0x80, lo})) // 2^31, 2^31+1, 2^31+127
+	s, serr := stdx509.ParseCertificate(der)
+	vAssert(serr == nil && s != nil, "the standard library accepts the certificate")
+	vReach("std-accepts")
+	f, ferr := ParseCertificate(der)
+	vAssert(f != nil && ferr == nil, "a policy identifier with an arc of 2^31 or more parses with no error, as in the standard library")
+}
